@@ -239,6 +239,7 @@ Definition packet := (nat * nat * msg)%type.     (* source, destination *)
 Inductive ev :=
 | EStatus (code : Z)                       (* HCI_Command_Status of a connection-management command *)
 | ELeConn (handle : Z) (central : bool) (peer : Z)
+| ELeConnFail (status peer : Z)            (* LE Connection Complete with an error status *)
 | ESetTerminated (adv_handle conn_handle : Z)
 | EDisc (handle reason : Z)
 | EAcl (handle : Z) (data : bytes)         (* ACL data packet to the host *)
@@ -270,6 +271,7 @@ Inductive label :=
 | LScanParams (i : nat) (active : bool)
 | LScanEnable (i : nat) (b : bool)
 | LConnect (i : nat) (peer : Z) (own_pub : bool)  (* LE (Extended) Create Connection *)
+| LCancel (i : nat)                        (* LE Create Connection Cancel *)
 | LAcl (i : nat) (h : Z) (d : bytes)       (* one complete PDU from the host *)
 | LDisconnect (i : nat) (h reason : Z)
 | LClConnect (i : nat) (peer : Z)          (* Create Connection *)
@@ -346,8 +348,22 @@ Definition on_adv (n i : nat) (c : ctrl) (adv : Z) (data srsp : bytes) : result 
   | None => (c, reports, [])
   end.
 
+(* the answer to a ConnectInd for one of our addresses that is not being advertised (D06d):
+   a TerminateInd (0x3E, connection failed to be established) routed like every control PDU *)
+Definition own_address (c : ctrl) (a : Z) : bool :=
+  orb (orb (a =? c_public c) (a =? c_random c))
+      (existsb (fun s => opt_eqb (set_address c s) a) (c_sets c)).
+
+Definition refuse (cs : list ctrl) (j : nat) (c : ctrl) (init adv : Z) : list packet :=
+  if own_address c adv then
+    match find_le cs init with
+    | Some i => [(j, i, MTerm adv 62)]
+    | None => []
+    end
+  else [].
+
 (* Controller.on_le_connect_ind *)
-Definition on_connect_ind (c : ctrl) (init adv : Z) : result :=
+Definition on_connect_ind (cs : list ctrl) (j : nat) (c : ctrl) (init adv : Z) : result :=
   if andb (leg_address c =? adv) (c_leg_enabled c) then
     match alloc c with
     | None => (c, [EError 1], [])
@@ -358,7 +374,7 @@ Definition on_connect_ind (c : ctrl) (init adv : Z) : result :=
     end
   else
     match find_set c (c_sets c) adv with
-    | None => (c, [], [])                               (* "This is not send to us." *)
+    | None => (c, [], refuse cs j c init adv)           (* not sent to us, or no longer advertised *)
     | Some s =>
         match alloc c with
         | None => (c, [EError 1], [])
@@ -439,10 +455,10 @@ Definition on_lmp_remove_sco (c : ctrl) (sender reason : Z) : result :=
   | Some k => (set_sco c (tbl_del (c_sco c) sender), [EDisc (k_handle k) reason], [])
   end.
 
-Definition on_message (n j : nat) (c : ctrl) (m : msg) : result :=
+Definition on_message (cs : list ctrl) (n j : nat) (c : ctrl) (m : msg) : result :=
   match m with
   | MAdv adv data srsp => on_adv n j c adv data srsp
-  | MConnInd init adv => on_connect_ind c init adv
+  | MConnInd init adv => on_connect_ind cs j c init adv
   | MTerm sender reason => on_terminate c sender reason
   | MAcl src le data => on_acl c src le data
   | MLmpConnReq sender => on_lmp_conn_req c sender
@@ -661,6 +677,13 @@ Definition local (cs : list ctrl) (n i : nat) (c : ctrl) (l : label) : result :=
       | Some _ => (c, [EStatus 12], [])                 (* COMMAND_DISALLOWED *)
       | None => (set_pending c (Some (peer, p)), [EStatus 0], [])
       end
+  | LCancel _ =>
+      (* on_hci_le_create_connection_cancel_command: the pending connection is concluded with an
+         LE Connection Complete carrying UNKNOWN_CONNECTION_IDENTIFIER *)
+      match c_pending c with
+      | Some (peer, _) => (set_pending c None, [ELeConnFail 2 peer], [])
+      | None => (c, [], [])
+      end
   | LAcl _ h d => send_acl cs i c h d
   | LDisconnect _ h r => disconnect cs i c h r
   | LClConnect _ peer => cl_connect cs i c peer
@@ -677,7 +700,7 @@ Definition label_ctrl (l : label) : option nat :=
   | LSetRandom i _ | LAdvParams i _ _ | LAdvData i _ | LScanRsp i _ | LAdvEnable i _
   | LExtRandom i _ _ | LExtParams i _ _ | LExtData i _ _ _ | LExtSrsp i _ _ _ | LExtEnable i _ _
   | LExtRemove i _ | LExtClear i | LTick i | LExtTick i _ | LScanParams i _ | LScanEnable i _
-  | LConnect i _ _ | LAcl i _ _ | LDisconnect i _ _ | LClConnect i _ | LClAccept i _
+  | LConnect i _ _ | LCancel i | LAcl i _ _ | LDisconnect i _ _ | LClConnect i _ | LClAccept i _
   | LScoSetup i _ | LScoAccept i _ | LSetCig i _ _ | LRemoveCig i _ => Some i
   | LDeliver _ => None
   end.
@@ -710,7 +733,7 @@ Definition step (s : state) (l : label) : state * list (nat * ev) * list packet 
             match nth_error cs dst with
             | None => (mkState cs (remove_nth k (st_net s)), [], [])
             | Some c =>
-                let '(c', evs, out) := on_message n dst c m in
+                let '(c', evs, out) := on_message cs n dst c m in
                 (mkState (upd cs dst c') (remove_nth k (st_net s) ++ out), tag dst evs, out)
             end
       end
@@ -750,6 +773,16 @@ Definition ctrl_obs (c : ctrl) :=
    (map (fun k => (k_peer k, k_handle k)) (c_sco c), c_cis c)).
 Definition state_obs (s : state) := (map ctrl_obs (st_cs s), st_net s).
 
+(* ------------------------------------------------------------------ the Device's matching rule *)
+(* Device.connect_le.on_connection (after D06c): the pending LE connect() of a device is
+   completed by a connection event on the LE transport in the central role.
+   Device.connect_classic.on_connection: by a BR/EDR connection whose peer is the address asked for. *)
+Definition completes_le (e : ev) : bool :=
+  match e with ELeConn _ true _ => true | _ => false end.
+
+Definition completes_classic (target : Z) (e : ev) : bool :=
+  match e with EClConn _ p => p =? target | _ => false end.
+
 (* ------------------------------------------------------------------ hypotheses of the theorems (boolean) *)
 (* a controller does not change its addresses after power-on (re-setting the same random
    address is allowed) *)
@@ -761,6 +794,28 @@ Definition label_static (cs : list ctrl) (l : label) : bool :=
   end.
 
 Definition guard_static (s : state) (l : label) : bool := label_static (st_cs s) l.
+
+(* weaker hypothesis for the routing theorems: a controller may take a new random address, or
+   give an advertising set its own random address, at any time (also while connected), as long as
+   no other controller uses that address: as public or random address, as the random address of
+   an advertising set, or as own address of one of its LE connections *)
+Definition set_randoms (c : ctrl) : list Z :=
+  flat_map (fun s => match a_random s with Some a => [a] | None => [] end) (c_sets c).
+
+Definition claims (c : ctrl) : list Z :=
+  c_public c :: c_random c :: set_randoms c ++ map k_self (c_le c).
+
+Fixpoint fresh_for (cs : list ctrl) (n : nat) (i : nat) (a : Z) : bool :=
+  match cs with
+  | [] => true
+  | c :: cs' => andb (orb (Nat.eqb n i) (negb (zmem a (claims c)))) (fresh_for cs' (S n) i a)
+  end.
+
+Definition guard_fresh (s : state) (l : label) : bool :=
+  match l with
+  | LSetRandom i a | LExtRandom i _ a => fresh_for (st_cs s) 0 i a
+  | _ => true
+  end.
 
 Fixpoint run_ok (guard : state -> label -> bool) (s : state) (ls : list label) : bool :=
   match ls with
@@ -827,7 +882,8 @@ Definition creates (c : ctrl) (adv : Z) : bool :=
   | None => false
   end.
 
-(* does controller c accept a ConnectInd for advertiser address adv? *)
+(* does controller c accept a ConnectInd for advertiser address adv?  (since D06d.patch an
+   addressee that does not accept refuses with a TerminateInd, so this is no hypothesis any more) *)
 Definition accepts (c : ctrl) (adv : Z) : bool :=
   andb (orb (andb (leg_address c =? adv) (c_leg_enabled c))
             (match find_set c (c_sets c) adv with Some _ => true | None => false end))
@@ -845,12 +901,9 @@ Definition guard_sym (s : state) (l : label) : bool :=
            | None => true
            end
        | Some (src, dst, MConnInd a b) =>
-           (* the addressee of a ConnectInd accepts it and does not overwrite a connection
-              (the excluded schedules are finding D06d) *)
+           (* the addressee of a ConnectInd has a handle left (it then accepts or refuses) *)
            match nth_error (st_cs s) dst with
-           | Some c => if owns_b c b
-                       then andb (accepts c b) (match tbl_get (c_le c) a with Some _ => false | None => true end)
-                       else true
+           | Some c => if owns_b c b then (match alloc c with Some _ => true | None => false end) else true
            | None => true
            end
        | _ => true
@@ -871,6 +924,73 @@ Definition guard_sym (s : state) (l : label) : bool :=
                end
            end
        | None => true
+       end
+   | _ => true
+   end).
+
+(* --- symmetry of the BR/EDR tables: the schedules it is proved for *)
+Definition is_cctl (m : msg) : bool :=
+  match m with MLmpConnReq _ | MLmpAccepted _ | MLmpDetach _ _ => true | _ => false end.
+
+Definition crel_pkt (i j : nat) (p : packet) : bool :=
+  let '(s, d, m) := p in andb (andb (Nat.eqb s i) (Nat.eqb d j)) (is_cctl m).
+
+(* connection-management LMP messages in flight from i to j *)
+Definition crel (s : state) (i j : nat) : list packet := filter (crel_pkt i j) (st_net s).
+
+Definition cquiet (s : state) (i j : nat) : bool := andb (nil_b (crel s i j)) (nil_b (crel s j i)).
+
+Definition not_pending (o : option bool) : bool := match o with Some false => false | _ => true end.
+Definition is_none {A} (o : option A) : bool := match o with None => true | Some _ => false end.
+Definition has_alloc (c : ctrl) : bool := match alloc c with Some _ => true | None => false end.
+
+(* nothing BR/EDR between controllers i and j: no table entry, no request pending, nothing in flight *)
+Definition cpair_idle (s : state) (i j : nat) : bool :=
+  match nth_error (st_cs s) i, nth_error (st_cs s) j with
+  | Some ci, Some cj =>
+      andb (andb (is_none (tbl_get (c_cl ci) (c_public cj))) (is_none (tbl_get (c_cl cj) (c_public ci))))
+           (andb (cquiet s i j)
+                 (andb (not_pending (lmp_get (c_lmp ci) (c_public cj))) (not_pending (lmp_get (c_lmp cj) (c_public ci)))))
+  | _, _ => true
+  end.
+
+Definition guard_cl (s : state) (l : label) : bool :=
+  andb (guard_static s l)
+  (match l with
+   | LClConnect i peer =>
+       (* a BR/EDR connection is requested only between controllers that have nothing going on *)
+       match find_classic (st_cs s) peer with
+       | Some j => andb (negb (Nat.eqb j i)) (cpair_idle s i j)
+       | None => true
+       end
+   | LClAccept i peer =>
+       (* the host accepts requests that are waiting (not its own outgoing ones), and a handle is left *)
+       match nth_error (st_cs s) i with
+       | Some c => match tbl_get (c_cl c) peer with
+                   | Some k => andb (andb (andb (k_handle k =? 0) (negb (k_central k))) (has_alloc c))
+                                    (negb (peer =? c_public c))
+                   | None => true
+                   end
+       | None => true
+       end
+   | LDisconnect i h _ =>
+       (* established connections are torn down by one side at a time *)
+       match nth_error (st_cs s) i with
+       | Some c => match by_handle (c_cl c) h with
+                   | Some k => andb (negb (h =? 0))
+                                    (match find_classic (st_cs s) (k_peer k) with
+                                     | Some j => andb (negb (Nat.eqb j i)) (cquiet s i j)
+                                     | None => true
+                                     end)
+                   | None => true
+                   end
+       | None => true
+       end
+   | LDeliver k =>
+       match nth_error (st_net s) k with
+       | Some (_, dst, MLmpAccepted _) =>
+           match nth_error (st_cs s) dst with Some c => has_alloc c | None => true end
+       | _ => true
        end
    | _ => true
    end).
